@@ -285,6 +285,39 @@ def build(draw):
                                        parse(commit=False, **kw_part)]
                         pairs.append(("A", t2, "final"))
                         pairs.append(("A", t2 + "-", "ret_vs_tracts"))
+        # the same settings given as a Config object instead of text
+        ctext = txt(sigma, ",")
+        H["Ao"] = [desc({"__cfg_text": ctext}, **base)]
+        H["Ak"] = [desc({"__cfg_kwargs": dict(sigma)}, **base)]
+        H["Ad"] = [desc({"__cfg_dict": dict(sigma)}, **base)]
+        H["Bo"] = [desc(None, wait_to_parse=True, **base),
+                   setc({"__cfg_text": ctext}), parse()]
+        H["As"] = [{"op": "other_object",
+                    "text": "T1N-R1W Sec 1: NE/4",
+                    "config": {"__cfg_text": ctext, "shared": True}},
+                   desc({"__cfg_text": ctext, "shared": True}, **base)]
+        lower_ok = all(not isinstance(v, str) or v == v.lower()
+                       or k == "layout" for k, v in sigma.items())
+        pairs += [("A", "Ao", "final"), ("A", "Bo", "final"),
+                  ("A", "As", "final")]
+        if lower_ok:
+            pairs += [("A", "Ak", "final"), ("A", "Ad", "final")]
+        pre = {k: v for k, v in sigma.items()
+               if k in ("default_ns", "default_ew", "ocr_scrub")}
+        if pre and len(pre) == len(sigma):
+            H["Ra"] = [desc(s_text, wait_to_parse=True),
+                       {"op": "preprocess", "commit": False, "kw": {}}]
+            H["Rb"] = [desc(None, wait_to_parse=True), setc(s_text),
+                       {"op": "preprocess", "commit": True, "kw": {}}]
+            H["Rc"] = [desc(None, wait_to_parse=True),
+                       {"op": "preprocess", "commit": False, "kw": dict(pre)}]
+            pairs += [("Ra", "Rb", "ret"), ("Ra", "Rc", "ret")]
+            if "ocr_scrub" in pre:
+                H["La"] = [desc(s_text, wait_to_parse=True),
+                           {"op": "deduce_layout"}]
+                H["Lb"] = [desc(None, wait_to_parse=True), setc(s_text),
+                           {"op": "deduce_layout"}]
+                pairs.append(("La", "Lb", "ret"))
         init = {k: v for k, v in sigma.items() if k in INIT_KW["PLSSDesc"]}
         if init:
             rest = {k: v for k, v in sigma.items() if k not in init}
@@ -321,6 +354,12 @@ def build(draw):
         pairs += [("A", "A2", "final"), ("A", "B", "final"),
                   ("A", "C", "final"), ("A", "C2", "final"),
                   ("A", "C-", "ret_vs_lots_qqs")]
+        ctext = txt(sigma, ",")
+        H["Ao"] = [tract({"__cfg_text": ctext}, parse_qq=True)]
+        H["Ak"] = [tract({"__cfg_kwargs": dict(sigma)}, parse_qq=True)]
+        H["Bo"] = [tract(None), setc({"__cfg_text": ctext}), parse()]
+        pairs += [("A", "Ao", "final"), ("A", "Ak", "final"),
+                  ("A", "Bo", "final")]
         if len(sigma) >= 2:
             ks = list(sigma)
             s1 = {k: sigma[k] for k in ks[:1]}
@@ -351,6 +390,22 @@ def build(draw):
         H["Q"] = [desc(txt(old, sep), wait_to_parse=True, **base),
                   setc(txt(sigma, sep)), parse()]
         pairs.append(("A", "Q", "final"))
+        # three sources in a row: config at init, a later assignment that
+        # changes it back and forth, and (where it exists) the keyword
+        H["Q3"] = [desc(txt(sigma, sep), wait_to_parse=True, **base),
+                   setc(txt(old, sep)), setc(txt(sigma, sep)), parse()]
+        pairs.append(("A", "Q3", "final"))
+        if all(n in opgen.PLSS_PARSE_KW for n in sigma):
+            H["P3"] = [desc(txt(sigma, sep), wait_to_parse=True, **base),
+                       setc(txt(old, sep)), parse(**sigma)]
+            H["P3-"] = [desc(txt(old, sep), **base), setc(txt(old, sep)),
+                        parse(commit=False, **sigma)]
+            pairs += [("A", "P3", "final"), ("A", "P3-", "ret_vs_tracts")]
+        init3 = {k: v for k, v in sigma.items() if k in INIT_KW["PLSSDesc"]}
+        if init3 and len(init3) == len(sigma):
+            # init keyword over the config string of the same init
+            H["I3"] = [desc(txt(old, sep), **dict(base, **init3))]
+            pairs.append(("A", "I3", "final"))
         tl = {k: v for k, v in sigma.items() if k in TRACT_LEVEL}
         if tl and len(tl) == len(sigma):
             H["R"] = [desc(None, parse_qq=True),
@@ -367,8 +422,13 @@ def build(draw):
         H["P-"] = [tract(txt(old, sep), parse_qq=True),
                    parse(commit=False, **sigma)]
         H["Q"] = [tract(txt(old, sep)), setc(txt(sigma, sep)), parse()]
+        H["Q3"] = [tract(txt(sigma, sep)), setc(txt(old, sep)),
+                   setc(txt(sigma, sep)), parse()]
+        H["P3"] = [tract(txt(sigma, sep)), setc(txt(old, sep)),
+                   parse(**sigma)]
         pairs += [("A", "P", "final"), ("A", "P2", "final"),
-                  ("A", "P-", "ret_vs_lots_qqs"), ("A", "Q", "final")]
+                  ("A", "P-", "ret_vs_lots_qqs"), ("A", "Q", "final"),
+                  ("A", "Q3", "final"), ("A", "P3", "final")]
     elif fam == "master":
         mc, mc2 = draw["mc"], draw["mc2"]
         d = {"default_ns": mc["ns"], "default_ew": mc["ew"]}
@@ -599,10 +659,29 @@ def _kw_ok(fn, kw):
     return all(k in params for k in kw)
 
 
+def _resolve_config(pytrs, cfg, shared):
+    """Plan-level config value -> what is passed to the library."""
+    if isinstance(cfg, dict) and "__cfg_text" in cfg:
+        key = "T:" + cfg["__cfg_text"]
+        if cfg.get("shared") and key in shared:
+            return shared[key]
+        obj = pytrs.Config(cfg["__cfg_text"])
+        shared[key] = obj
+        return obj
+    if isinstance(cfg, dict) and "__cfg_kwargs" in cfg:
+        return pytrs.Config.from_kwargs(**cfg["__cfg_kwargs"])
+    if isinstance(cfg, dict) and "__cfg_dict" in cfg:
+        return pytrs.Config.from_dict(dict(cfg["__cfg_dict"]))
+    return cfg
+
+
 def run_history(ops):
     import warnings
     pytrs = ensure_repo_on_path()
     warnings.simplefilter("ignore")
+    shared = {}
+    ops = [dict(op, config=_resolve_config(pytrs, op["config"], shared))
+           if isinstance(op.get("config"), dict) else op for op in ops]
     subj = None
     outcomes = []
     roundtrip = []
@@ -663,6 +742,17 @@ def run_history(ops):
                 out = {"ok": None}
             elif kind == "config_tracts":
                 subj.config_tracts(op["config"])
+                out = {"ok": None}
+            elif kind == "preprocess":
+                if not _kw_ok(subj.preprocess, op["kw"]):
+                    unavailable = True
+                    break
+                out = {"ok": subj.preprocess(commit=op["commit"], **op["kw"])}
+            elif kind == "deduce_layout":
+                out = {"ok": subj.deduce_layout()}
+            elif kind == "other_object":
+                # another object built from the SAME (shared) Config first
+                pytrs.PLSSDesc(op["text"], config=op["config"])
                 out = {"ok": None}
             elif kind == "set_twprgesec":
                 tw = op["tw"]
